@@ -66,7 +66,8 @@ class StoragePartDiscover(StorageBase):
         href: Optional[str]
         try:
             st_mode = os.stat(filesystem_path).st_mode
-        except (FileNotFoundError, NotADirectoryError):
+        except (FileNotFoundError, NotADirectoryError, ValueError):
+            # ValueError: embedded null byte, no such entry can exist
             return
         if stat.S_ISDIR(st_mode):
             href = None
